@@ -606,8 +606,7 @@ Proof.
   destruct (validate_stack st) as [vs| |] eqn:Hvs; cbn [bind] in H; try discriminate.
   exists vs. split; [reflexivity|]. unfold convert in H.
   destruct (mapM (validate_layout fixed vs) cells); cbn [bind] in H; try discriminate.
-  destruct (assert (s_haslayers (vs_stack vs)) 560); cbn [bind] in H; try discriminate.
-  destruct (assert (s_hasboundary (vs_stack vs)) 561); cbn [bind] in H; try discriminate.
+  destruct (export_stack fixed vs); cbn [bind] in H; try discriminate.
   apply mapM_Forall2. exact H.
 Qed.
 
